@@ -1034,9 +1034,14 @@ void Exec::do_step(const Step& st, const Client& cl, int depth) {
         fire("F7_fresh_process_restart");
         orc_eval("C10");
         log.u64(fb.lo);
-        if (fb != it->second.first)
+        if (fb != it->second.first) {
           viol("C10", "C10.fresh", sol.name + ":" + g_evals[rc.ev].shortname + "/" + g_evals[rc.ev].sig,
                "this session evaluates to [" + fmt_bits(it->second.first) + "] but a fresh process given the same parameters and arguments evaluates to [" + fmt_bits(fb) + "]");
+          orc_eval("C11");
+          if (it->second.stale)
+            viol("C11", "C11.lastset.stale", sol.name + ":" + g_evals[rc.ev].shortname + "/" + g_evals[rc.ev].sig,
+                 "the instance keeps returning the bits it returned before its parameters were changed, a fresh process given the values last set returns other bits");
+        }
       }
       return;
     }
